@@ -263,6 +263,37 @@ fn cmd_class(cmd: &[Bytes]) -> String {
     format!("{}{}", name, if binary { "(binary argument)" } else { "" })
 }
 
+/// The cursor commands with and without their options, on the collection keys of the alphabet (they are C19's subject and
+/// in none of the data-type alphabets; a seeded script-path parser that started looking for SSCAN's options at the
+/// cursor dropped MATCH and COUNT silently)
+fn scan_forms(spec: &str) -> Vec<Vec<Bytes>> {
+    let (cmd, keys): (&str, Vec<&str>) = if spec.contains("set") || spec == "c03-mixed" {
+        ("SSCAN", vec!["s", "s2", "k"])
+    } else if spec.contains("hash") {
+        ("HSCAN", vec!["h", "k"])
+    } else if spec.starts_with("c04") || spec.contains("zset") {
+        ("ZSCAN", vec!["z", "k"])
+    } else if spec.starts_with("c01") {
+        ("SCAN", vec![""])
+    } else {
+        return Vec::new();
+    };
+    let mut out = Vec::new();
+    for k in keys {
+        let head: Vec<Bytes> = if cmd == "SCAN" { vec![b("SCAN"), b("0")] } else { vec![b(cmd), b(k), b("0")] };
+        for opts in [vec![], vec!["MATCH", "a*"], vec!["COUNT", "1"], vec!["MATCH", "[a-m]*", "COUNT", "1"], vec!["COUNT", "100", "MATCH", "*"], vec!["MATCH"], vec!["COUNT", "x"]] {
+            let mut c = head.clone();
+            c.extend(opts.iter().map(|o| b(o)));
+            out.push(c);
+        }
+        if cmd == "SCAN" {
+            out.push(vec![b("SCAN"), b("0"), b("TYPE"), b("string")]);
+            out.push(vec![b("SCAN"), b("0"), b("MATCH"), b("a*"), b("TYPE"), b("list"), b("COUNT"), b("1")]);
+        }
+    }
+    out
+}
+
 /// all (history, command) cases of a spec whose index is congruent to part mod parts
 fn differential(spec: &str, depth: usize, part: u64, parts: u64, forms: &[&str], io: &mut WorkerIo) -> Value {
     differential_filtered(spec, depth, part, parts, forms, &[], io)
@@ -323,7 +354,9 @@ fn differential_filtered(spec: &str, depth: usize, part: u64, parts: u64, forms:
             if !seen_states.insert(fp) {
                 continue;
             }
-            w.menu_here()
+            let mut m = w.menu_here();
+            m.extend(scan_forms(spec));
+            m
         };
         for cmd in menu.iter() {
             index += 1;
